@@ -106,7 +106,7 @@ theorem generated_feedback_sem (E : Env K) {n : Nat} (G : DFRD K n) (dt : Dt) (x
 
 /-- **`self[rows, cols]`** through the generated `__getitem__`: the sub-matrix at every grid index. -/
 theorem generated_getitem_sem (E : Env K) {n : Nat} (G : DFRD K n) (dt : Dt) (rows cols : List Nat) (hn : 0 < n)
-    (R : PyFRD K) (hR : Generated.frdGetitem (PyFRD.of G dt) (rows, cols) = .ok R) :
+    (R : PyFRD K) (hR : Generated.frdGetitemData (PyFRD.of G dt) (rows, cols) = .ok R) :
     ∃ R' : DFRD K n, R = PyFRD.of R' dt ∧ ∀ k, (FRDTree.Expr.sel (.leaf G) rows cols).evalSem E k
       = some ⟨R'.sys.omega k, R'.p, R'.m, R'.sys.data k⟩ := by
   obtain ⟨R', h1, h2⟩ := generated_ok_model (generated_getitem_eq G dt rows cols hn) hR
@@ -244,7 +244,7 @@ example : Generated.frdFeedback exE (PyFRD.of exM .cont) (.array 2 2 1) (-1)
     = (DFRD.feedback exE exM (.array 2 2 1) (-1)).map fun R => PyFRD.of R .cont :=
   generated_feedback_eq exE exM .cont (.array 2 2 1) (-1) .cont (le_refl 2) (fun h => by cases h) rfl
 
-example : Generated.frdGetitem (PyFRD.of exM .cont) ([1, 0], [1])
+example : Generated.frdGetitemData (PyFRD.of exM .cont) ([1, 0], [1])
     = (exM.select [1, 0] [1]).map fun R => PyFRD.of R .cont :=
   generated_getitem_eq exM .cont [1, 0] [1] Nat.two_pos
 
